@@ -3,7 +3,7 @@ CONSTANTS
   Carriers = {1, 2, 3, 4, 5}
   NUp = 2
   NDown = 2
-  MaxFaults = 3
+  MaxFaults = 2
   MaxDrops = 0
 SPECIFICATION Spec
 INVARIANTS TypeOK PrefixDelivered OnlyOwnSegments OneAcceptPerSession OneCurrent NeverDead
